@@ -77,6 +77,23 @@ def make_objective(family: str, n: int, rng: np.random.Generator):
             def grad(x): return A @ x - b + 1.0 / (1.0 + np.exp(-(x - a)))
             L = L + 0.25
         return fun, grad, True, L
+    if family == "decay":
+        # a well-conditioned convex quadratic minimised at the origin, meant to be started far away: the iterates and gradients shrink
+        # by many orders of magnitude within a few iterations (what a stored history must survive when it is rebuilt by subtraction)
+        A, L = _spd(rng, n, 10 ** rng.uniform(0, 1.5))
+        def fun(x): return _sc(0.5 * x @ (A @ x))
+        def grad(x): return A @ x
+        return fun, grad, True, L
+    if family == "smooth_l1":
+        # a convex quadratic plus a smoothed l1 term lam * sum sqrt(x_i^2 + mu^2) with a tiny mu: a sharp valley along every axis, on
+        # which line searches bracket the minimiser long before the strong Wolfe conditions hold (the stepper's interval tests decide)
+        A, L = _spd(rng, n, 10 ** rng.uniform(0, 2))
+        b = rng.standard_normal(n) * 3
+        lam = float(10 ** rng.uniform(-0.5, 1.0))
+        mu = float(10 ** rng.uniform(-8, -5))
+        def fun(x): return _sc(0.5 * x @ (A @ x) - b @ x + lam * np.sum(np.sqrt(x * x + mu * mu)))
+        def grad(x): return A @ x - b + lam * x / np.sqrt(x * x + mu * mu)
+        return fun, grad, True, None
     if family == "rosen":
         from lbfgsb.benchmarks import rosenbrock, rosenbrock_grad
         return (lambda x: _sc(rosenbrock(x))), rosenbrock_grad, False, None
@@ -143,9 +160,36 @@ def make_start(lb, ub, rng: np.random.Generator, where: str):
     return np.clip(x, lb, ub)
 
 
+def cosmix_problem(seed: int):
+    """small non-convex problems (sum of cosines of linear forms plus a weak quadratic, in a box) on which short line searches fail now
+    and then; returns the problem and the number of trials per search drawn with it. A corpus of seeds on which a rejected pair is
+    immediately followed by a failed line search and a memory reset is kept in harness/props/c18.py."""
+    rng = np.random.default_rng(seed)
+    n = int(rng.integers(2, 5))
+    A = rng.normal(size=(n, n))
+    w = rng.uniform(0.5, 3, size=n)
+    c = rng.normal(size=n)
+
+    def fun(x):
+        z = A @ x
+        return _sc(np.sum(np.cos(w * z)) + 0.05 * np.sum((x - c) ** 2))
+
+    def grad(x):
+        z = A @ x
+        return A.T @ (-w * np.sin(w * z)) + 0.1 * (x - c)
+    lb = -rng.uniform(0.5, 2, size=n)
+    ub = rng.uniform(0.5, 2, size=n)
+    x0 = rng.uniform(lb, ub)
+    maxls = int(rng.integers(1, 4))
+    return Problem(f"cosmix/n={n}/both/interior", n, fun, grad, lb, ub, x0, False, None,
+                   {"seed": seed, "family": "cosmix", "n": n, "box": "both", "start": "interior"}), maxls
+
+
 def make_problem(seed: int, family: Optional[str] = None, n: Optional[int] = None,
                  box: Optional[str] = None, start: Optional[str] = None,
                  families: Optional[List[str]] = None, zero_bounds: bool = False) -> Problem:
+    if families == ["cosmix"]:
+        return cosmix_problem(seed)[0]
     rng = np.random.default_rng(seed)
     fams = families or (CONVEX + NONCONVEX)
     family = family or fams[int(rng.integers(0, len(fams)))]
@@ -153,7 +197,15 @@ def make_problem(seed: int, family: Optional[str] = None, n: Optional[int] = Non
     n = n or int(rng.integers(nmin, 13))
     box = box or BOXKINDS[int(rng.integers(0, len(BOXKINDS)))]
     start = start or ["interior", "face", "vertex"][int(rng.integers(0, 3))]
-    fun, grad, convex, L = make_objective(family, n, rng)
+    nan_edge = family == "nan_edge"
+    if nan_edge:
+        # an objective that is NaN on part of the box (the square root / logarithm of a quantity that goes negative there): a smooth
+        # base objective, NaN wherever its value is below a level somewhat under the start value — the descent runs into the edge of the
+        # domain, trial points beyond it evaluate to NaN
+        fun0, grad, convex, L = make_objective(["qp", "osc", "qp_quartic"][int(rng.integers(0, 3))], n, rng)
+        convex, L = False, None
+    else:
+        fun, grad, convex, L = make_objective(family, n, rng)
     lb, ub = make_box(box, n, rng)
     if zero_bounds:
         # bounds that are exactly zero (a value with special status in many "truthiness" shortcuts), from a generator of their
@@ -168,6 +220,16 @@ def make_problem(seed: int, family: Optional[str] = None, n: Optional[int] = Non
                 elif np.isfinite(ub[i]):
                     ub[i] = 0.0
     x0 = make_start(lb, ub, rng, start)
+    if family == "decay":
+        lb, ub = np.full(n, -np.inf), np.full(n, np.inf)
+        x0 = rng.standard_normal(n) * 10 ** rng.uniform(3, 6)
+    if nan_edge:
+        f_start = float(fun0(np.clip(x0, lb, ub)))
+        level = f_start - float(rng.uniform(0.05, 0.6)) * (1.0 + abs(f_start))
+
+        def fun(x, _f=fun0, _lv=level):
+            v = _f(x)
+            return v if np.real(v) >= _lv else float("nan")
     return Problem(f"{family}/n={n}/{box}/{start}", n, fun, grad, lb, ub, x0, convex, L,
                    {"seed": seed, "family": family, "n": n, "box": box, "start": start})
 
@@ -194,12 +256,14 @@ def upd_identity(x, f0, f0_old, grad, X, G):
     return f0, f0_old, grad, G
 
 
-def make_switching(kind: str, p: "Problem", seed: int, switch_at: int):
+def make_switching(kind: str, p: "Problem", seed: int, switch_at: int, trigger_pg: Optional[float] = None):
     """objective redefined on the fly, consistently: the user's fun/jac and the update function
     share one state. Before the switch the objective is F, after it F' = scale*F ("rescale") or
     F + (w/2)|x|^2 ("reweight"). The update function is invoked once before the loop (call 0)
     and once per accepted step; at call number `switch_at` it switches the objective and
-    rewrites f0, f0_old, grad and the stored gradients for the new objective.
+    rewrites f0, f0_old, grad and the stored gradients for the new objective. With `trigger_pg` (continuation / homotopy style) the
+    switch happens instead at the first call after the start at which the projected gradient of the current objective is at most
+    `trigger_pg`: the stage has converged, the next one begins.
     Returns fun, jac, update, newfun, newjac, state."""
     r = random.Random(seed)
     w_new = r.choice([0.5, 2.0, 10.0])
@@ -248,7 +312,12 @@ def make_switching(kind: str, p: "Problem", seed: int, switch_at: int):
         from collections import deque
         k = st["calls"]
         st["calls"] += 1
-        if k != switch_at:
+        if trigger_pg is not None:
+            xx_ = np.asarray(x, dtype=float)
+            pg_ = float(np.max(np.abs(np.clip(xx_ - np.atleast_1d(Gr(xx_.copy())), p.lb, p.ub) - xx_)))
+            if st["on"] or k == 0 or not pg_ <= trigger_pg:
+                return f0, f0_old, grad, G
+        elif k != switch_at:
             return f0, f0_old, grad, G
         st["on"] = True
         if kind == "rescale":
@@ -309,6 +378,14 @@ def scenario(seed: int, features: Optional[Dict[str, Any]] = None, families=None
     sb = (r.random() < 0.35) if small_budgets is None else small_budgets
     cfg = make_config(seed, small_budgets=sb)
     kw: Dict[str, Any] = dict(x0=p.x0.copy(), fun=p.fun, jac=p.grad, bounds=p.bounds, **cfg)
+    # the box as a list of (lower, upper) pairs with None for an absent side — the documented spelling — instead of an array with
+    # infinities (a quarter of the runs; drawn from a generator of its own so that the other draws do not move)
+    sp = feat.get("bounds_spelling")
+    if sp is None:
+        sp = "pairs" if random.Random(seed * 15485863 + 11).random() < 0.25 else "array"
+    if sp == "pairs":
+        kw["bounds"] = [(float(l) if np.isfinite(l) else None, float(u) if np.isfinite(u) else None) for l, u in zip(p.lb, p.ub)]
+    feat["bounds_spelling"] = sp
     xdt = feat.get("x0_dtype")
     if xdt in ("float32", "float16"):
         # a start given in reduced precision (moved inside the box where the rounding put it outside: the package refuses a start
@@ -355,7 +432,7 @@ def scenario(seed: int, features: Optional[Dict[str, Any]] = None, families=None
     up = feat.get("update", "none")
     if up in ("rescale", "reweight", "indef") and feat.get("consistent"):
         sw = feat.get("switch_at", r.randint(0, 5))
-        fun2, jac2, upd2, newfun, newjac, swst = make_switching(up, p, seed, sw)
+        fun2, jac2, upd2, newfun, newjac, swst = make_switching(up, p, seed, sw, trigger_pg=feat.get("trigger_pg"))
         kw["fun"], kw["jac"], kw["update_fun_def"] = fun2, jac2, upd2
         p.switch = {"newfun": newfun, "newjac": newjac, "state": swst, "switch_at": sw}
     elif up == "identity":
